@@ -58,7 +58,14 @@ JudgeMerge1m(e) ==
                    BagOfSeq(e.rules) = BagOfSeq(ManyRules(tabs.merge, tabs.expand, e.b, 1, "all")))
         ELSE <<>>)
 
+\* a compound set that also holds compounds without attachment point: they come out unchanged next to the merged
+\* product, and the atom bookkeeping includes them
+JudgeMergeS(e) ==
+    Common(e)
+    \o (IF e.raised = "" /\ e.parses THEN Fails(e, "SpectatorsKept", e.spectators_kept) ELSE <<>>)
+
 Judge(e) == CASE e.ev = "rules" -> <<>>
+              [] e.ev = "merge_s" -> JudgeMergeS(e)
               [] e.ev = "merge1m" -> JudgeMerge1m(e)
               [] e.ev = "merge2" -> JudgeMerge2(e)
               [] e.ev = "merge1" -> JudgeMerge1(e)
